@@ -12,15 +12,19 @@ LEVEL = "exploration"
 EXHAUSTIVE = {"quick": False, "thorough": False}
 RULE = ("Random and directed sequences of 0..25 sends with lifetimes {0.5, 1, 30, 120 s} and "
         "clock advances while the link is down (all connects refused), then a connection; "
-        "repeated outages; sends on a closed socket. Oracle = 20-line sequential queue model "
+        "repeated outages; sends on a closed socket; 9-10 held messages, then a connection "
+        "whose 1st..4th write fails while further sends arrive from a disconnected-"
+        "notification subscriber / other tasks (judged by the black-box bound: never more "
+        "than ten accepted messages flushed at a connection instant). Oracle = 20-line sequential queue model "
         "(purge expired, capacity 10, append; flush unexpired in order on connect) compared "
         "with the exception of every send and the serials seen at the console. Non-trivial = "
         "the run reached a connection after at least one send while down; distinct = distinct "
         "op lists.")
-ASSUMPTIONS = ["no write faults; connection instants are read from the simulated network log",
+ASSUMPTIONS = ["no write faults in the model-compared runs; connection instants are read from the simulated network log",
                "a message whose expiry equals the connection instant is expired (code: now < "
                "expiry)"]
-REQUIRED_OBS = ["overflow_raised", "expired_purged_made_room", "flushes_compared",
+REQUIRED_OBS = ["full_buffer_flushed_after_write_fault", "overflow_raised_during_fault_handling",
+                "overflow_raised", "expired_purged_made_room", "flushes_compared",
                 "not_open_raised", "held_after_overflow_sent"]
 BUDGET = {"quick": 100, "thorough": 1500}
 
@@ -82,14 +86,80 @@ def directed():
     return out
 
 
+def with_write_faults(rnd=None):
+    """Held messages, a connection whose k-th write fails, and further sends that arrive
+    while the client deals with the failure (from a disconnected-notification subscriber, from
+    other tasks, right after): judged by the bound only (see check_bound)."""
+    out = []
+    for held in (9, 10):
+        for fail_at in (1, 2, 3, 4):
+            for extra in ("on_disconnect_send", "task", "inline_after"):
+                for pol in ("idem", "long"):
+                    ops = [["net_default", "refuse", 0.0]]
+                    ops += [["send", S.KINDS[i % 3], pol, "inline"] for i in range(held)]
+                    if extra == "on_disconnect_send":
+                        ops += [["on_disconnect_send", "zone_ctrl", "idem"],
+                                ["on_disconnect_send", "ac_ctrl", "idem"]]
+                    ops += [["net", "accept", 0.0, fail_at], ["net_default", "accept", 0.0]]
+                    ops += [["adv", 2.0]]
+                    if extra == "task":
+                        ops += [["send", "zone_ctrl", "idem", "t0"],
+                                ["send", "ac_ctrl", "idem", "t1"]]
+                    elif extra == "inline_after":
+                        ops += [["send", "zone_ctrl", "idem", "inline"],
+                                ["send", "ac_ctrl", "idem", "inline"]]
+                    ops += [["adv", 4.5], ["q"]]
+                    out.append(ops)
+    return out
+
+
 def cases(tier, seed):
     rnd = random.Random(f"C16/{tier}/{seed}")
     for gen in (4, 5):
         for ops in directed():
             yield {"gen": gen, "ops": ops}
+        for ops in with_write_faults():
+            yield {"gen": gen, "ops": ops, "k": "wf"}
     n = 300 if tier == "quick" else 150000
     for i in range(n):
         yield {"gen": rnd.choice((4, 5)), "ops": gen_script(rnd)}
+
+
+def check_bound(gen, run):
+    """Black-box form of "at most ten unexpired messages are ever held for a down link":
+    whatever is flushed at the instant a connection opens was held just before; more than ten
+    distinct accepted messages flushed there means more than ten were held. (No sequential
+    model: these runs contain write faults and retries.)"""
+    viol, obs = [], {}
+    log = run.log
+    if run.status != "ok":
+        return [{"mechanism": "socket-scenario-hang", "detail": {"status": run.status}}], obs
+    by = S.frames_by_conn(gen, log)
+    p2s = {(r["typ"], bytes(r["data"])): r for r in run.sends if r["data"] is not None}
+    for seq, t, kind, d in log.events:
+        if kind != "NET.open":
+            continue
+        b = by.get(d["conn"])
+        if not b:
+            continue
+        flushed = []
+        for i in b["frames"]:
+            r = p2s.get((i["frame"].typ, bytes(i["frame"].data)))
+            if r is not None and "call_seq" in r and r["call_seq"] < seq and abs(i["t"] - t) < 1e-9 \
+                    and r["serial"] not in flushed:
+                flushed.append(r["serial"])
+        if len(flushed) > CAP:
+            viol.append({"mechanism": "more-than-ten-messages-held-for-a-down-link",
+                         "detail": {"conn": d["conn"], "flushed": len(flushed),
+                                    "serials": flushed[:14]}})
+        if len(flushed) == CAP:
+            obs["full_buffer_flushed_after_write_fault"] = obs.get(
+                "full_buffer_flushed_after_write_fault", 0) + 1
+    rejected = [r for r in run.sends if r["outcome"] == "QueueOverflowError"]
+    if rejected:
+        obs["overflow_raised_during_fault_handling"] = len(rejected)
+    obs["write_fault_runs"] = 1
+    return viol, obs
 
 
 def check(gen, run):
@@ -224,10 +294,14 @@ def check(gen, run):
 def run_case(case):
     gen = case["gen"]
     run = S.run_script(gen, case["ops"], settle=10.0)
-    viol, obs = check(gen, run)
+    if case.get("k") == "wf":
+        viol, obs = check_bound(gen, run)
+    else:
+        viol, obs = check(gen, run)
     for x in viol:
         x["log"] = H.log_slice(run.log, 40)
+        x["detail"]["ops"] = case["ops"][:30]
     decided = 1 if (obs.get("flushes_compared") or obs.get("not_open_raised")
-                    or obs.get("overflow_raised")) else 0
+                    or obs.get("overflow_raised") or obs.get("write_fault_runs")) else 0
     return {"violations": H.cap(viol), "evals": 1, "decided": decided, "obs": obs,
             "sample": {"gen": gen, "ops": case["ops"][:24]}}
